@@ -31,7 +31,11 @@ func cmdHTTPOne(args []string) int {
 			hdr["Content-Type"] = ct
 		}
 		done := make(chan hresp, 1)
-		go func() { done <- hr.API.do(parts[0], parts[1], hdr, f.Extra["body"]) }()
+		body := f.Extra["body"]
+		if b, ok := f.Extra["body"+strings.TrimPrefix(k, "req")]; ok {
+			body = b
+		}
+		go func() { done <- hr.API.do(parts[0], parts[1], hdr, body) }()
 		resp := <-done
 		fmt.Printf("%s -> %d %s\n", r, resp.Code, short(resp.Body))
 		if resp.Code >= 500 {
